@@ -245,7 +245,7 @@ func mayAuth(c *Conn) bool {
 //@   callsite Session.Copy requires c.state == imap.ConnStateSelected
 //@   callsite SessionMove.Move requires c.state == imap.ConnStateSelected
 //@   ensures c.state == old(c.state)
-//@   exclude serve handleIdle
+//@   exclude serve
 
 //@ func (c *Conn) checkState(state imap.ConnState) (err error)
 //@   props C05 C06
